@@ -31,9 +31,9 @@ theorem C18_telescope {K : Type} [Field K] [CharZero K] (p m : Nat) (h : p < m) 
     (1 / ((p : K) + 1)) * ∏ q ∈ Finset.Ico (p + 1) m, ((q : K) / ((q : K) + 1)) = 1 / (m : K) :=
   fn_telescope p m h
 
-example : (1 / ((1 : ℚ) + 1)) * ∏ q ∈ Finset.Ico (1 + 1) 4, ((q : ℚ) / ((q : ℚ) + 1)) = 1 / 4 := by
-  have := C18_telescope (K := ℚ) 1 4 (by omega)
-  simpa using this
+example : (1 / (((1 : ℕ) : ℚ) + 1))
+    * ∏ q ∈ Finset.Ico (1 + 1) 4, (((q : ℕ) : ℚ) / (((q : ℕ) : ℚ) + 1)) = 1 / ((4 : ℕ) : ℚ) :=
+  C18_telescope 1 4 (by omega)
 
 /-- **C18 (final state, any commutative ring).**  For every `n ≥ 2`, every layout with distinct
 wires, every non-empty list of points that are pairwise distinct on bits `0 … n-1` (in any order),
@@ -51,6 +51,10 @@ theorem C18_state_general {Θ R : Type} [CommRing R] [RotSem Θ R] (n : Nat) (hn
       = if fnGClr L n b && !b L.c0 && !b L.c1
         then fnCoef A n (1 : R) pts.reverse (fnXbits L n b) * ψ0 (fnClr L n b) else 0 :=
   fn_state_general hw hn A hγ h0 pts hne hd ψ0 hψ0 b
+
+/-- Non-vacuity of the parameter hypotheses: the code's angles over `ℝ → ℂ` satisfy them. -/
+example : (ex (fnRealAngles 3).zero * ex (fnRealAngles 3).zero : ℂ) = 1
+    ∧ (cs ((fnRealAngles 3).theta 0) : ℂ) = 0 := ⟨fnReal_zero 3, fnReal_cs0 3⟩
 
 /-- **C18 (the property).**  For every `n ≥ 2`, every non-empty list `pts` of `m` pairwise distinct
 `n`-bit inputs in any order, every integer output assignment and every requested `N` (or none)
